@@ -109,7 +109,7 @@ def c12(tier):
                  "Go toolchain used to compile and run the instrumented programs"])
 def c11(tier):
     vlib.standard(
-        "C11", tier, "c11", ["Properties_C11.v", "Proofs_Regex.v", "Proofs_RegexRules.v", "Proofs_RegexSimplify.v", "Proofs_RegexWalk.v", "Proofs_RegexWalkS.v", "Proofs_RegexLit.v", "Proofs_RegexPrint.v", "Proofs_RegexText.v"],
+        "C11", tier, "c11", ["Properties_C11.v", "Proofs_Regex.v", "Proofs_RegexRules.v", "Proofs_RegexSimplify.v", "Proofs_RegexWalk.v", "Proofs_RegexWalkS.v", "Proofs_RegexLit.v", "Proofs_RegexPrint.v", "Proofs_RegexText.v", "Proofs_RegexParse.v"],
         timeout=3000,
         assume=[
             "Go's regexp engine is modelled (Model_Regex.m / den), not verified: the matcher is compared with regexp.FindStringSubmatchIndex on sampled (pattern, subject) pairs on every run",
